@@ -222,6 +222,13 @@ func runC13(c *Ctx) {
 			io = &zeroIO{}
 		}
 		cpu := &z80.CPU{States: st, Memory: mem, IO: io}
+		// a maskable request that stays refused (these loops never enable interrupts): it
+		// belongs to the state Run leaves behind, like everything else
+		var pendingReq *z80.Interrupt
+		if !pg.Halts && !pg.Storm && pg.Fill == nil && call%3 == 1 {
+			pendingReq = z80.IM1Interrupt()
+			cpu.Interrupt = pendingReq
+		}
 
 		// context and cancellation mode
 		mode := []string{"cancel-in-callback", "cancel-in-callback", "cancel-from-goroutine", "cancelled-before-call", "deadline-expired", "deadline-1ms", "child-of-cancelled-parent", "never"}[r.Intn(8)]
@@ -349,6 +356,9 @@ func runC13(c *Ctx) {
 			c.R.Violation("C13/wrong-error/"+mode, w("Run did not return the context's error"))
 		default:
 			errKinds[err.Error()]++
+		}
+		if pendingReq != nil && pan == nil && cpu.Interrupt != pendingReq {
+			c.R.Violation("C13/pending-request-removed/"+mode, w("a refused request that was pending when Run was called is gone after Run returned: no whole number of Steps does that"))
 		}
 		bucket := "0"
 		switch {
@@ -521,6 +531,6 @@ func runC13(c *Ctx) {
 	c.R.Set("gomaxprocs", pm)
 	c.R.Set("programs", int64(len(c13Progs)))
 	c.R.Set("exhaustive", false)
-	c.R.Set("rule", "Run calls on {JR loop, JP loop, JP (IX) loop and LDIR/OTIR/CPIR loops made of prefixed instructions only, INIR and LDIR loops, a port-polling loop, an NMI storm in which every acceptance's own stack write raises the next NMI, memories filled with one prefix/opcode pattern (DD, FD, DD FD, ED, CB, DD CB, NOP, RST 38), generated terminating programs} with starting R in {0,1,3,7F,random} x cancellation {from inside the program's own bus callback at access 1,2,10,1000,100000 or random, from a second goroutine after a random spin, cancelled before the call, deadline already expired, deadline in 1 ms, a child of a parent cancelled from the callback, never (program halts; context kept alive)} x GOMAXPROCS {1,2,16}. Oracle: returned error == ctx.Err() (nil with the halted state also legal for terminating programs); logical promptness: once the context is done every bus callback yields / sleeps 1 ms and Run may make at most 3000 further accesses (a correct loop needs 1..6) - a count, not a stopwatch; the final States and memory must equal a Step-driven twin advanced to the same access count (whole number of Steps); after every batch of 50 calls no goroutine with a z80 frame may remain, first while the batch's never-cancelled contexts are still alive, then after cancelling them; a hook-free phase runs short terminating programs with contexts that are done at about the moment of the HALT (no yields/sleeps anywhere) so that the race detector sees the HALT exit overlap the publication of the cancellation; zero race reports (binary built with -race). Distinct = distinct (program, GOMAXPROCS, cancellation instant, starting R, mode)")
+	c.R.Set("rule", "Run calls on {JR loop, JP loop, JP (IX) loop and LDIR/OTIR/CPIR loops made of prefixed instructions only, INIR and LDIR loops, a port-polling loop, an NMI storm in which every acceptance's own stack write raises the next NMI, memories filled with one prefix/opcode pattern (DD, FD, DD FD, ED, CB, DD CB, NOP, RST 38), generated terminating programs} with starting R in {0,1,3,7F,random} x cancellation {from inside the program's own bus callback at access 1,2,10,1000,100000 or random, from a second goroutine after a random spin, cancelled before the call, deadline already expired, deadline in 1 ms, a child of a parent cancelled from the callback, never (program halts; context kept alive)} x GOMAXPROCS {1,2,16}. Oracle: returned error == ctx.Err() (nil with the halted state also legal for terminating programs); logical promptness: once the context is done every bus callback yields / sleeps 1 ms and Run may make at most 3000 further accesses (a correct loop needs 1..6) - a count, not a stopwatch; a refused maskable request pending at the call (1/3 of the loop programs) must still be pending afterwards; the final States and memory must equal a Step-driven twin advanced to the same access count (whole number of Steps); after every batch of 50 calls no goroutine with a z80 frame may remain, first while the batch's never-cancelled contexts are still alive, then after cancelling them; a hook-free phase runs short terminating programs with contexts that are done at about the moment of the HALT (no yields/sleeps anywhere) so that the race detector sees the HALT exit overlap the publication of the cancellation; zero race reports (binary built with -race). Distinct = distinct (program, GOMAXPROCS, cancellation instant, starting R, mode)")
 	c.R.Assume("nothing assumes that a watcher goroutine exists; leak accounting looks only at goroutines with frames of the code under test")
 }
